@@ -16,7 +16,9 @@ TRUSTED = ["dict.__getitem__ calls __missing__ only on a miss (CPython)"]
 
 
 def tasks(tier):
-    return _tm.mtm_missing_tasks(("plain", "coded", "empty")) + _tm.typemap_tasks()[1:2] + _tm.frame_tasks()
+    from . import _core
+
+    return _tm.mtm_missing_tasks(("plain", "coded", "empty")) + _tm.typemap_tasks()[1:2] + _tm.frame_tasks() + _core.compile_parent_tasks()
 
 
 def conformance(tier):
